@@ -13,4 +13,4 @@ def check(ctx, rep):
     K.rule_pairing(ctx, rep)
     K.rule_classification(ctx, rep)
     K.rule_shared_counters(ctx, rep)
-    S.rule_D3(ctx, rep, 'R3-D3')
+    S.rule_D3(ctx, rep, 'R3-D3', methods=('stats',))
